@@ -30,14 +30,14 @@ func init() {
 		},
 		Trusted: []string{"x/tools go/ssa and VTA call graph (v0.29.0), go/cfg", "the triage table /verif/triage/pan_sites.json (one reason per site)"},
 		Quick: []ruleDef{
-			{"PAN-REGION", 12, rulePanRegion},
-			{"PAN-SITE", 26, rulePanSite},
-			{"PAN-HANDLER", 5, rulePanHandler},
+			{"PAN-REGION", 8, rulePanRegion},
+			{"PAN-SITE", 20, rulePanSite},
+			{"PAN-HANDLER", 3, rulePanHandler},
 			{"PAN-CONVERT", 4, rulePanConvert},
-			{"TREE-NONNIL", 9, ruleTreeNonNil},
+			{"TREE-NONNIL", 7, ruleTreeNonNil},
 			{"PAN-PREFIX", 8, rulePanPrefix},
 			{"PAR-ADVANCE", 40, ruleParAdvance},
-			{"TERM-LOOPS", 48, ruleTermLoops},
+			{"TERM-LOOPS", 30, ruleTermLoops},
 		},
 	})
 }
